@@ -35,8 +35,14 @@ func UpdateMessageForChange(changedFile string) (string, string, string) {
 			oldLastChanged = strings.TrimPrefix(oldLastChanged, "/")
 		}
 
+		// a/{sub => }/f.txt moves the file up: the new part is empty as well
+		var newLastChanged = changed[4]
+		if changed[3] == "" {
+			newLastChanged = strings.TrimPrefix(newLastChanged, "/")
+		}
+
 		oldFileName = changed[1] + changed[2] + oldLastChanged
-		newFileName = changed[1] + changed[3] + changed[4]
+		newFileName = changed[1] + changed[3] + newLastChanged
 
 		changedFile = newFileName
 	}
